@@ -35,6 +35,9 @@ impl Prop for C04 {
     fn fuzz_target(&self) -> Option<&'static str> {
         Some("fz_choices")
     }
+    fn fuzz_runs(&self) -> u64 {
+        150000
+    }
     fn stream_len(&self, _tier: Tier) -> usize {
         500
     }
